@@ -76,6 +76,10 @@ fn number_strategy() -> impl Strategy<Value = String> {
         2 => (0u32..64, -1i128..=1).prop_map(|(k, d)| ((1i128 << k) + d).max(0).to_string()),
         3 => "[1-9][0-9]{0,19}",
         1 => "[1-9][0-9]{20,29}",
+        // beyond 64 and beyond 128 bits (a wider intermediate type only moves the cliff), incl. 2^k / unit thresholds of u128
+        1 => "[1-9][0-9]{30,45}",
+        1 => (0u32..5, -1i128..=1).prop_map(|(k, d)| ((u128::MAX / 1024u128.pow(k)) as i128).wrapping_add(d).max(0).to_string()),
+        1 => (64u32..127, -1i128..=1).prop_map(|(k, d)| ((1i128 << k) + d).to_string()),
         // no number at all: a lone unit, or nothing
         1 => Just(String::new()),
         // characters that are numeric for Unicode but not digits of a number literal
